@@ -460,7 +460,7 @@ def disagrees(ctx, recipe, env=None):
         f"C01 denote {sx(c.wire)} {sx(ser.ins_wire(c.ins))} {sx(ser.env_wire(c.env))}"))
     if model is None or any(m is None for m in model):
         return False
-    return not ser.tables_equal(impl, model)[0]
+    return not ser.tables_equal(impl, model)[0] and not not_float_exact(model, impl, env or {})
 
 
 def run_cases(ctx, cases):
@@ -546,7 +546,7 @@ def run_cases(ctx, cases):
             ctx.case()
             continue
         ok, bad = ser.tables_equal(impl, model)
-        if not ok and beyond_float(c.recipe, c.env):
+        if not ok and (beyond_float(c.recipe, c.env) or not_float_exact(model, impl, c.env)):
             # some intermediate value leaves the range where float64 is exact on integers/dyadics: the
             # exact comparison is meaningless there (not a claim about funsor)
             ctx.count(f"{st}:beyond-exact-float64")
@@ -591,6 +591,24 @@ def beyond_float(recipe, env):
                     return True
         except Exception:
             continue
+    return False
+
+
+def not_float_exact(model, impl, env):
+    """The exact comparison presupposes that every value is a float64.  True (= outside the exact fragment, not a
+    claim about funsor) if some cell of Lean's exact table is not representable in float64 (it needs more than 53
+    significant bits, e.g. a long product of dyadic sample points), or if real inputs are bound at NON-integer
+    sample points and the two tables agree to 1e-12 relative (an intermediate product/sum may have been rounded)."""
+    def representable(x):
+        return isinstance(x, float) or Fraction(float(x)) == x
+    if model is None or impl is None:
+        return False
+    if any(not representable(x) for cell in model if cell for x in cell[1]):
+        return True
+    frac_env = any(np.any(np.asarray(v, dtype=float) != np.round(np.asarray(v, dtype=float))) for v in (env or {}).values())
+    if frac_env and len(model) == len(impl):
+        return all(list(a[0]) == list(b[0]) and len(a[1]) == len(b[1]) and
+                   all(futil.same_num(x, y, 1e-12) for x, y in zip(a[1], b[1])) for a, b in zip(impl, model))
     return False
 
 
@@ -732,6 +750,14 @@ def _full_table(ctx, recipe, ins):
     return arr.reshape(tuple(s_ for _, s_ in ins) + tuple(shape))
 
 
+def _np_table(arr, nb):
+    """ndarray (batch axes first) -> [(event shape, flat values)] over the batch points, row-major."""
+    arr = np.asarray(arr, dtype=np.float64)
+    ev = list(arr.shape[nb:])
+    flat = arr.reshape((-1,) + tuple(ev)) if nb else arr.reshape((1,) + tuple(ev))
+    return [(ev, [float(x) for x in np.asarray(row).reshape(-1)]) for row in flat]
+
+
 def run_phi(ctx, n):
     """Transcendental ops as uninterpreted scalar functions (Props/C01/Phi.lean): the exact argument table comes
     from Lean `denote`, numpy's scalar function is applied to it, and the surrounding structure (a reduction over
@@ -788,6 +814,12 @@ def run_phi(ctx, n):
             ctx.count("phi:spec-undefined")
             continue
         nb = len(ins)
+        # stay inside the function's domain: outside it funsor's scalar ops and numpy's array ops differ by design
+        # (ops.log(-1.0) = -inf is the documented scalar guard `math.log(x) if x > 0 else -inf`; np.log gives nan)
+        dom = {"log": ta >= 0, "sqrt": ta >= 0, "log1p": ta > -1, "atanh": np.abs(ta) < 1}.get(f)
+        if dom is not None and not bool(np.all(dom)):
+            ctx.count(f"phi:out-of-domain:{f}")
+            continue
         with np.errstate(all="ignore"):
             want = np.asarray(getattr(ops, f)(ta), dtype=np.float64)
             out_ins = ins
@@ -832,7 +864,8 @@ def run_phi(ctx, n):
         if not ok:
             ctx.fail("input", "C01.eager-ne-denote-phi", witness=gen_terms.describe(recipe),
                      expected=f"{f} applied by numpy to Lean's argument table, then {form}: {want.tolist()!r}"[:600],
-                     got=str(got.tolist())[:600], python=replay_python(recipe))
+                     got=str(got.tolist())[:600],
+                     python=replay_python(recipe, None, _np_table(want, len(out_ins)), out_ins))
             continue
         if np.array_equal(got, want, equal_nan=True):
             ctx.count("phi:bitwise-equal")
